@@ -22,6 +22,12 @@ GLUE_BEFORE = set("<%:?-+&|=!>*/^~.\\")
 GLUE_AFTER = set("<>%:?=")
 
 
+NEST = ("int\tg_tab[2][2] = {{1, 2}, {3, 4}};\nchar\t*g_names[] = {\"a\", \"b\"};\n\nint\tf(int *tab, t_s *s, char **av)\n{\n\tint\tloc[3];\n\n"
+        "\tloc[0] = tab[1];\n\ttab[0]= 1;\n\ttab[0] =1;\n\tif (tab[0]&& tab[1]> 2)\n\t\treturn (tab[(0)] + av[0][1]);\n\ts->t[1].x = tab[0]? 1 : 2;\n"
+        "\ttab[ 0] = loc[1 ];\n\ttab [1] = (int []){1, 2}[0];\n\tloc[2] = s->t[0] .x + s[1]->x + (tab)[1] * tab[1]* tab[2] *tab[0];\n\tf(tab, &s[0], &av[1]) ;\n"
+        "\twhile (tab[0]--)\n\t{\n\t\tloc[1]++;\n\t}\n\treturn (tab[0]);\n}\n\nstruct s_a\n{\n\tint\tarr[4];\n\tchar\tc[2][3];\n};\n")
+
+
 def kinds_values(r):
     return [(t[0], t[3]) for t in r["tokens"]]
 
@@ -152,6 +158,36 @@ def run(res, tier, br, model_ok=True, search=False):
                                    {"kind": "respell-pipeline", "name": name, "original": src, "respelled": new})
                 elif p0["outcome"] != p1["outcome"] and (p0["outcome"] in ("ok", "fatal")) :
                     res.report("respell:outcome-differs", f"{name}: outcome {p1['outcome']} after respelling braces/brackets, was {p0['outcome']}",
+                               {"kind": "respell-pipeline", "name": name, "original": src, "respelled": new})
+    # (4) one bracket or brace at a time, every occurrence, both spellings, in a text where they stand next to
+    # everything (another bracket, an operator glued or spaced, `;`, `->`, a blank): diagnostics unchanged apart from columns
+    for name, src in [("nest.c", NEST)] + [(p.name, p.text) for p in progs[: (6 if big else 1)]]:
+        r0 = lex_impl(src)
+        spans = faults.token_spans(src)
+        if r0.get("exc") or not spans or len(spans) != len(r0["tokens"]):
+            continue
+        p0 = pipeline(name, src)
+        if p0["outcome"] != "ok":
+            continue
+        d0 = sorted((d[1], d[2]) for d in shown(p0["diags"]))
+        for (a, b), t in zip(spans, r0["tokens"]):
+            if t[0] not in ("LBRACE", "RBRACE", "LBRACKET", "RBRACKET") or src[a:b] not in ALT:
+                continue
+            before = src[a - 1] if a > 0 else " "
+            after = src[b] if b < len(src) else " "
+            if before in GLUE_BEFORE or after in GLUE_AFTER:
+                continue
+            for sp in ALT[src[a:b]]:
+                new = src[:a] + sp + src[b:]
+                if kinds_values(lex_impl(new)) != kinds_values(r0):
+                    continue        # this spelling combines with its neighbours: not a respelling of the same tokens
+                p1 = pipeline(name, new)
+                res.count("respell.each", 1)
+                res.nontriv(("re", new))
+                d1 = sorted((d[1], d[2]) for d in shown(p1["diags"])) if p1["outcome"] == "ok" else None
+                if d1 != d0:
+                    ln = src.count("\n", 0, a) + 1
+                    res.report("respell:diagnostics-differ", f"{name} line {ln}: writing {src[a:b]!r} as {sp!r}: outcome {p1['outcome']}, (code, line) appear {[x for x in (d1 or []) if x not in d0][:4]} / disappear {[x for x in d0 if x not in (d1 or [])][:4]}",
                                {"kind": "respell-pipeline", "name": name, "original": src, "respelled": new})
     # correspondence on the respelled texts
     if model_ok and srcs_for_corr:
